@@ -115,14 +115,14 @@ func runC16Mixed(c *Ctx, namespaces nsByName, newAdm func(lister admission.PodLi
 	ts := httptest.NewServer(http.HandlerFunc(srv.HandleValidate))
 	defer ts.Close()
 	type item struct {
-		a    *AdmitCase
-		uid  string
-		body []byte
-		want AdmitOut
-		got  AdmitOut
+		a      *AdmitCase
+		uid    string
+		body   []byte
+		want   AdmitOut
+		got    AdmitOut
 		gotUID string
 		status int
-		err  string
+		err    string
 	}
 	items := make([]*item, n)
 	for i := range items {
